@@ -178,6 +178,7 @@ func runC03(c *Cfg) {
 	mcs = append(mcs, wideRouterCases()...)
 	mcs = append(mcs, selfLoopThenEndCases()...)
 	mcs = append(mcs, startlessBranchCases()...)
+	mcs = append(mcs, selfEmbeddedCases()...)
 	parallel(c, len(mcs), func(i int) {
 		judgeFor(c, "C03", "connect-while-running", mcs[i])
 		if len(mcs[i].MidConnect) > 0 {
